@@ -228,6 +228,10 @@ def cases(chunk):
                 pts = [first] + [_point(rng) for _ in range(n - 1)]
             base = rng.choice(["geo", "geo", "ecef", "none"])
             b1 = _near(rng, first) if rng.random() < 0.5 else _point(rng)
+            if rng.random() < 0.08:
+                # a track that starts exactly on the equator, seen from a base on the equator (Z = 0 exactly)
+                pts[0][1] = 0.0
+                b1 = [b1[0], 0.0, b1[2]]
             yield {"kind": "track", "pts": pts, "base_form": base, "b1": b1,
                    "b2": _point(rng), "b2_form": rng.choice(["geo", "ecef"]),
                    "start": rng.choice(["geo", "geo", "ecef"]),
@@ -535,6 +539,16 @@ def _run_track(case, ctx):
         ctx.monitor("base.origin")
         if max(abs(v) for v in enu_b1[0]) > TOL_ORIGIN:
             raise Bad({"what": "first fix used as base does not map to (0,0,0)", "got": enu_b1[0], "base": b1})
+    twin = None
+    if base is not None and form == "geo" and len(pts) % 2 == 1 and case["rebase"]:
+        # two tracks used in turn: a second, independent track is put into the local frame of the SAME base object
+        # before the first one is re-based; it must go on denoting its own positions in the frame of b1
+        pts_twin = [[_clamp(p[0] + 0.001 * (i + 1), -180.0, 180.0), _clamp(p[1] - 0.0007 * (i + 1), -89.9, 89.9), p[2] + 3.0]
+                    for i, p in enumerate(pts[:4])]
+        twin = gen.make_track(pts_twin, coord="GEO")
+        _need(M.call(twin.toENUCoords, base), "Track.toENUCoords(base) on a second track with the same base object",
+              track=pts_twin, base=b1)
+        ctx.count("second_track_with_the_same_base_object")
     if case["rebase"]:
         b2 = case["b2"]
         b2obj = _base_obj(case["b2_form"], b2)
@@ -546,6 +560,13 @@ def _run_track(case, ctx):
             _reuse_base_object(b2obj)
             ctx.count("caller_reuses_base_object")
             _base_recorded(tr, b2, "ENU->ENU rebasing, after the caller modified its own base object", ctx)
+        if twin is not None:
+            _base_recorded(twin, b1, "a second track converted with the same base object, after the FIRST track was "
+                                     "re-based", ctx)
+            side2 = twin.copy()
+            _need(M.call(side2.toGeoCoords), "Track.toGeoCoords() of the second track", track=pts_twin, b1=b1, b2=b2)
+            _track_geo_cmp(side2, pts_twin, "second track: Geo->ENU(same base object)->Geo after the first track was "
+                                            "re-based", ctx)
         # there and back without undoing the re-basing first: the re-based track itself must denote the
         # original positions (a re-basing that leaves some fixes in the old frame cancels out in
         # ENU(b1)->ENU(b2)->ENU(b1) but not here)
@@ -695,7 +716,7 @@ def classify(case, witness):
 
 # floors for the call-history workloads added in session 3 (a run in which they were silently skipped is inconclusive)
 _floors_base = floors
-_FLOORS_EXTRA = {'counters': {'caller_reuses_base_object': 200}}
+_FLOORS_EXTRA = {'counters': {'caller_reuses_base_object': 200, 'second_track_with_the_same_base_object': 100}}
 
 
 def floors(tier):
